@@ -2,6 +2,9 @@ use crate::atom_table::*;
 use crate::machine::heap::*;
 use crate::types::*;
 
+use fxhash::FxBuildHasher;
+use indexmap::IndexMap;
+
 /* Use the pointer reversal technique of the Deutsch-Schorr-Waite
  * algorithm to detect cycles in Prolog terms.
  *
@@ -19,6 +22,12 @@ use crate::types::*;
  * Commonalities with the GC marking algorithm:
  * - The contents of forwarded cells are modified only when they are unforwarded
  * - Marked (but unforwarded!) cells immediately shift to the backward phase
+ *
+ * A PStrLoc cell does not point to the cell that is visited after it
+ * (the tail cell of the string) but to the string's first byte, so
+ * its value cannot be recovered from the location the backward phase
+ * returns from. It is recorded in pstr_loc_values when the tail is
+ * entered and restored from there.
 */
 
 #[derive(Debug)]
@@ -29,6 +38,7 @@ pub(crate) struct CycleDetectingIter<'a, const STOP_AT_CYCLES: bool> {
     next: u64,
     cycle_found: bool,
     mark_phase: bool,
+    pstr_loc_values: IndexMap<usize, u64, FxBuildHasher>,
 }
 
 impl<'a, const STOP_AT_CYCLES: bool> CycleDetectingIter<'a, STOP_AT_CYCLES> {
@@ -43,6 +53,7 @@ impl<'a, const STOP_AT_CYCLES: bool> CycleDetectingIter<'a, STOP_AT_CYCLES> {
             next,
             cycle_found: false,
             mark_phase: true,
+            pstr_loc_values: IndexMap::with_hasher(FxBuildHasher::default()),
         }
     }
 
@@ -214,6 +225,7 @@ impl<'a, const STOP_AT_CYCLES: bool> CycleDetectingIter<'a, STOP_AT_CYCLES> {
                         }
 
                         self.heap[tail_idx].set_forwarding_bit(true);
+                        self.pstr_loc_values.insert(self.current, self.next);
 
                         self.next = self.heap[tail_idx].get_value();
                         self.heap[tail_idx].set_value(self.current as u64);
@@ -337,6 +349,13 @@ impl<'a, const STOP_AT_CYCLES: bool> CycleDetectingIter<'a, STOP_AT_CYCLES> {
             self.heap[self.current].set_value(self.next);
             self.next = self.current as u64;
             self.current = temp as usize;
+
+            if self.heap[self.current].get_tag() == HeapCellValueTag::PStrLoc {
+                // returning from the tail of a string to the cell that refers to the string
+                if let Some(&pstr_loc) = self.pstr_loc_values.get(&self.current) {
+                    self.next = pstr_loc;
+                }
+            }
         }
 
         if self.current == self.start {
